@@ -118,3 +118,28 @@ Definition fractional_args (fv : freevar) (ne te : arg) (nd : option arg) : outc
 (* charges for which rates are requested (get_rates_ionisation / _recombination / _tcx, lines 143-181) *)
 Definition ion_keys (Z : nat) : list nat := seq 0 Z.
 Definition rec_keys (Z : nat) : list nat := seq 1 Z.
+
+(* ---------------------------------------------------------------------------------------------
+   2-D: raysect Interpolator2DArray(x, y, f, 'linear', 'none', 0, 0) is bilinear on the cell that contains (x, y);
+   tbl is indexed [ix][iy] as the array handed to it (interpolators2d_*, lines 655, 755, 790) *)
+Definition cell (tbl : list (list Q)) (a b : nat) : Q := nth b (nth a tbl []) 0.
+
+Definition bilerp (xs ys : list Q) (tbl : list (list Q)) (x y : Q) : option Q :=
+  match locate xs x 0, locate ys y 0 with
+  | Some (i, u), Some (j, v) =>
+      let lo := cell tbl i j + (cell tbl (S i) j - cell tbl i j) * u in
+      let hi := cell tbl i (S j) + (cell tbl (S i) (S j) - cell tbl i (S j)) * u in
+      Some (lo + (hi - lo) * v)
+  | _, _ => None
+  end.
+
+(* abundance_axisymmetric_mapper (lines 795-806): AxisymmetricMapper(f2d)(x, y, z) = f2d(sqrt(x^2 + y^2), z);
+   equilibrium.map3d(f1d) (lines 829-836, 860-867; efit.pyx map2d/map3d) = AxisymmetricMapper of
+   (r, z) -> f1d(psi_n(r, z)) inside the last closed flux surface, the outside value (0) elsewhere.
+   The square root, the normalised flux and the inside test are functions of the running system: they enter as
+   parameters, nothing is assumed about them. *)
+Definition axisym (f2 : Q -> Q -> option Q) (sqrt : Q -> Q) (x y z : Q) : option Q := f2 (sqrt (x * x + y * y)) z.
+
+Definition map3d (f1 : Q -> option Q) (psin : Q -> Q -> Q) (inside : Q -> Q -> bool) (outside : Q)
+           (sqrt : Q -> Q) (x y z : Q) : option Q :=
+  axisym (fun r zz => if inside r zz then f1 (psin r zz) else Some outside) sqrt x y z.
